@@ -248,6 +248,16 @@ func (l *vfE5Life) newClient() int64 {
 	return k
 }
 
+// vfE5Body: mostly tiny bodies; one in three sits at the configured max-msg-size or just below it
+// (max, max-1, max-25, max-26, max-27: the record header is 26 bytes), so that every queue that bounds
+// its record size by something smaller than header + max-msg-size shows.
+func vfE5Body(r *vfRand, max int) []byte {
+	if r.Intn(3) == 0 && max > 30 {
+		return r.Bytes(max - []int{0, 1, 25, 26, 27}[r.Intn(5)])
+	}
+	return r.Bytes(r.Intn(9))
+}
+
 var vfE5TopicNames = []string{"ta", "tb", "tc#ephemeral"}
 var vfE5ChanNames = []string{"c1", "c2", "c3#ephemeral", "c4#ephemeral"}
 
@@ -555,7 +565,7 @@ func (l *vfE5Life) randomOp() {
 			return
 		}
 		for i, k := 0, 1+r.Intn(4); i < k; i++ {
-			body := r.Bytes(r.Intn(9))
+			body := vfE5Body(r, int(l.n.getOpts().MaxMsgSize))
 			m := NewMessage(t.GenerateID(), body)
 			line := fmt.Sprintf("pub %s %s %d %s", t.name, vfE5IDNum(m.ID), m.Timestamp, vfHex(body))
 			l.bodies[string(m.ID[:])] = vfHex(body)
@@ -700,6 +710,7 @@ func vfE5NewLife(t *testing.T, out *vfOut, r *vfRand, dir string, memq int, hist
 	opts := vfE5Opts(dir)
 	opts.MemQueueSize = int64(memq)
 	opts.MaxBytesPerFile = int64(vfEnvInt("VERIF_MAXFILE", 200))
+	opts.MaxMsgSize = int64(vfEnvInt("VERIF_MAXMSG", 64))
 	n, err := New(opts)
 	if err != nil {
 		t.Fatal(err)
